@@ -14,7 +14,7 @@ CXXFLAGS = ['-std=c++17', '-O1', '-g', '-fsanitize=address,undefined', '-fsaniti
 
 
 # class templates are replayed at the instantiation the library exports
-CPP_CLASS = {'PolygonAreaT': 'PolygonAreaT<Geodesic>'}
+CPP_CLASS = {'PolygonAreaT': 'PolygonAreaT<Geodesic>', 'coeff': 'SphericalEngine::coeff'}
 
 
 def obligation_name(r, f):
